@@ -370,6 +370,58 @@ def mon_activate_lost_to_reset(case, lines):
     return None
 
 
+def mon_mo_weakened(case, lines):
+    """C07: every atomic operation of TriggerVariable is seq_cst, except the acquire load of `triggered` in reset()'s
+    retry loop (TriggerMO.trigger_mo_table).  wait()/wait_for() read `activated` in an unlocked fast path, so the
+    activated=false store of reset() is the only happens-before edge for a consumer that returns through it
+    (TriggerMO.fast_path_publishes; relaxed variants race: reset_store_relaxed_refuted, fast_path_load_relaxed_refuted)"""
+    atomic = (K['LOAD'], K['STORE'], K['RMW'], K['XCHG'], K['CAS_OK'], K['CAS_FAIL'])
+    for i, t, k, o, v, m, op, ins in _events(lines):
+        if k not in atomic or m == 5:
+            continue
+        if k == K['LOAD'] and m == 2 and op == RESET:
+            continue
+        return ('atomic operation (kind %d, value %d) of %s at trace line %d has memory order %d, not seq_cst: a consumer whose '
+                'wait() returns through the unlocked `activated` check is then no longer ordered after the producer '
+                '(Coq witness TriggerMO.reset_store_relaxed_refuted)' % (k, v, OPNAME[op] if op is not None and 0 <= op < 9 else '?', i, m))
+    return None
+
+
+def mon_notify_outside_lock(case, lines):
+    """C07 (lifetime): every notify_all is issued while the notifying thread owns the mutex paired with the condition
+    variable (TriggerMO.notify_under_lock).  A waiter can return only after taking that mutex, i.e. after the notifier's
+    last access but the unlock; notifying after the unlock lets the waiter return - and destroy the variable - while
+    notify_all on its condition variable is still to come."""
+    held, pending, asleep, cvm = {}, {}, {}, {}
+    for i, t, k, o, v, m, op, ins in _events(lines):
+        if t in pending:          # an untimed cv wake re-acquires in the same step; a timed one logs its own LOCK next
+            mtx = pending.pop(t)
+            if not (k == K['LOCK'] and o == mtx):
+                held.setdefault(t, set()).add(mtx)
+        h = held.setdefault(t, set())
+        if k == K['LOCK']:
+            h.add(o)
+        elif k == K['UNLOCK']:
+            h.discard(o)
+        elif k == K['CV_SLEEP']:
+            mtx = next(iter(h)) if len(h) == 1 else cvm.get(o)
+            if mtx is not None:
+                cvm.setdefault(o, mtx)
+                h.discard(mtx)
+                asleep[t] = mtx
+        elif k == K['CV_WAKE']:
+            if t in asleep:
+                pending[t] = asleep.pop(t)
+        elif k in (K['NOTIFY_ALL'], K['NOTIFY_ONE']):
+            want = cvm.get(o)
+            if (want is not None and want not in h) or (want is None and not h):
+                return ('thread %d (%s) called notify on condition variable obj%d at trace line %d without owning its mutex: a '
+                        'waiter can take the mutex, return and destroy the variable before this notify (TriggerMO.notify_under_lock)'
+                        % (t, OPNAME[op] if op is not None and 0 <= op < 9 else '?', o, i))
+    return None
+
+
 MONITORS = {'wait_early': mon_wait_early, 'timed_false': mon_timed_false, 'activation_early': mon_activation_early,
             'trigger_reset': mon_trigger_reset, 'lost_wakeup': mon_lost_wakeup,
-            'activate_lost_to_reset': mon_activate_lost_to_reset}
+            'activate_lost_to_reset': mon_activate_lost_to_reset,
+            'mo_weakened': mon_mo_weakened, 'notify_outside_lock': mon_notify_outside_lock}
